@@ -92,6 +92,7 @@ def is_valid(number):
 
 def format(number):
     """Reformat the number to the standard presentation format."""
+    number = compact(number)
     if len(number) == 9:
         number = number[:3] + '-' + number[3:5] + '-' + number[5:]
     return number
